@@ -58,6 +58,7 @@ void COTmrClear(CO_TMR *tmr)
 {
     CO_NODE    *node = tmr->Node;
     CO_TPDO    *pdo;
+    CO_HBCONS  *hbc;
     uint16_t    num;
 
     /* delete heartbeat timer */
@@ -81,6 +82,22 @@ void COTmrClear(CO_TMR *tmr)
             COTmrDelete(tmr, pdo->InTmr);
             pdo->InTmr = -1;
         }
+    }
+
+    /* delete heartbeat consumer timers */
+    hbc = node->Nmt.HbCons;
+    while (hbc != 0) {
+        if (hbc->Tmr > -1) {
+            COTmrDelete(tmr, hbc->Tmr);
+            hbc->Tmr = -1;
+        }
+        hbc = hbc->Next;
+    }
+
+    /* delete sync producer timer */
+    if (node->Sync.Tmr > -1) {
+        COTmrDelete(tmr, node->Sync.Tmr);
+        node->Sync.Tmr = -1;
     }
 }
 
